@@ -49,7 +49,7 @@ def main(argv):
 
     if replay:
         rec, vs = core.replay_file(check, replay)
-        same = [v for v in vs if v['sig'] == rec['sig']]
+        same = [v for v in vs if v['sig'] == rec['sig'] or v['sig'] is None]
         if not quiet:
             print('replay %s' % replay)
             print('  case     : %s' % core.short(json.dumps(rec['case']), 400))
